@@ -152,12 +152,23 @@ def run_tlc(
     heap: str = "8g",
     depth_first: bool = False,
     out_file: Optional[str] = None,
+    defs: Optional[Dict[str, str]] = None,
 ) -> TLCResult:
     """Run TLC on spec/<module>.tla with the given cfg text. Scratch copies; nothing left behind."""
     work = tempfile.mkdtemp(prefix="tlc-", dir=scratch())
     for f in os.listdir(SPEC):
         if f.endswith(".tla"):
             shutil.copy(os.path.join(SPEC, f), work)
+    if defs:
+        # constants that a .cfg cannot express (tuples, records): a generated wrapper module defines them
+        wrapper = "G_" + module
+        with open(os.path.join(work, wrapper + ".tla"), "w") as fh:
+            fh.write(f"---- MODULE {wrapper} ----\nEXTENDS {module}\n")
+            for k, v in defs.items():
+                fh.write(f"G_{k} == {v}\n")
+            fh.write("====\n")
+        cfg = cfg + "\nCONSTANTS\n" + "".join(f" {k} <- G_{k}\n" for k in defs)
+        module = wrapper
     with open(os.path.join(work, module + ".cfg"), "w") as fh:
         fh.write(cfg)
     jopts = ["-XX:+UseParallelGC", f"-Xmx{heap}", "-Xss64m"]
